@@ -82,4 +82,30 @@ theorem C19_json_single_line_extracted (h : Hdr) (tmpl : Str) (pairs : Option (L
   rw [hiff, named_json_layout]
   simp [Hdr.get]
 
+/-- C19 "parses as JSON" for the layout as extracted: the seven keys need no escaping, so only run-time strings count -/
+theorem C19_json_parses_extracted (h : Hdr) (tmpl : Str) (pairs : Option (List (Str × Str)))
+    (hh : noEscapeNeeded h.timestamp = true ∧ noEscapeNeeded h.fileName = true ∧ noEscapeNeeded h.line = true ∧
+          noEscapeNeeded h.threadId = true ∧ noEscapeNeeded h.logger = true ∧ noEscapeNeeded h.logLevel = true)
+    (ht : noEscapeNeeded (tmpl.map replNl) = true)
+    (hp : ∀ kv ∈ pairs.getD [], noEscapeNeeded kv.1 = true ∧ noEscapeNeeded kv.2 = true) :
+    ∃ body, jsonLine Extracted.jsonLayout h tmpl pairs = body ++ ['\n'] ∧
+      parseFlat body = some
+        ([("timestamp".toList, h.timestamp), ("file_name".toList, h.fileName), ("line".toList, h.line),
+          ("thread_id".toList, h.threadId), ("logger".toList, h.logger), ("log_level".toList, h.logLevel),
+          ("message".toList, tmpl.map replNl)] ++ pairs.getD []) := by
+  obtain ⟨body, hb, hparse⟩ := C19_json_parses Extracted.jsonLayout (by rw [named_json_layout]; simp) h tmpl pairs
+    (by
+      rw [named_json_layout]
+      intro kf hkf
+      simp only [List.mem_cons, List.mem_nil_iff, or_false] at hkf
+      obtain ⟨h1, h2, h3, h4, h5, h6⟩ := hh
+      rcases hkf with rfl | rfl | rfl | rfl | rfl | rfl | rfl <;> simp only [Hdr.get] <;>
+        first
+        | exact ⟨by decide, h1⟩ | exact ⟨by decide, h2⟩ | exact ⟨by decide, h3⟩ | exact ⟨by decide, h4⟩
+        | exact ⟨by decide, h5⟩ | exact ⟨by decide, h6⟩ | exact ⟨by decide, ht⟩)
+    hp
+  refine ⟨body, hb, ?_⟩
+  rw [hparse, named_json_layout]
+  rfl
+
 end Obligations
